@@ -120,26 +120,6 @@ pub fn run_seq(m: &Model, cfg: &RunCfg) -> (Vec<Value>, Value) {
     }
 }
 
-/// pre-filter of the sweep (selection only): does the reported solution replay to the reported value ?  (variables in index order, an
-/// undecided variable takes the default 0, as in DPModel!FeasibleSolution)
-fn solution_consistent(m: &Model, ret: &Value) -> bool {
-    if !ret["sol"]["some"].as_bool().unwrap_or(false) {
-        return !ret["has_value"].as_bool().unwrap_or(false);
-    }
-    let decs: Vec<(usize, usize)> = ret["sol"]["decs"].as_array().unwrap().iter().map(|d| (d[0].as_u64().unwrap() as usize, d[1].as_i64().unwrap().max(0) as usize)).collect();
-    let (mut x, mut v) = (m.root, m.v0);
-    for var in 0..m.n {
-        let a = decs.iter().find(|d| d.0 == var).map(|d| d.1).unwrap_or(0);
-        if !m.domain(var, x).contains(&a) {
-            return false;
-        }
-        let (t, c) = m.tr(var, x, a);
-        x = t;
-        v += c;
-    }
-    Some(v as i64) == ret["best_value"].as_i64() && decs.len() <= m.n
-}
-
 struct Out<'a> {
     w: &'a mut dyn Write,
     run: usize,
@@ -219,7 +199,7 @@ fn main() {
                 swept += 1;
                 let val = if ret["has_value"].as_bool().unwrap() { Some(ret["best_value"].as_i64().unwrap()) } else { None };
                 let bad = ret["panicked"].as_bool().unwrap() || ret["watchdog"].as_bool().unwrap() || !ret["is_exact"].as_bool().unwrap() || val != m2.opt().map(|o| o as i64)
-                    || !solution_consistent(&m2, &ret);
+                    || !m2.solution_consistent(&ret);
                 if bad {
                     suspects += 1;
                     let id2 = 1_000_000 + inst_id * sweep + j;
